@@ -316,6 +316,14 @@ def run_job(job: dict) -> dict:
                              oracle.project(res.by_instance.get(inst, []), mode, preds, orc["costs"], orc["multiset"]))
                          if mode != "sat" else [["SAT" if res.by_instance.get(inst) else "UNSAT"]],
                          "mode": mode, "preds": sorted(preds) if preds else None}
+                    # for instance-class matchers: which auxiliary predicates have atoms in the result per bad instance
+                    aux = []
+                    for bi in bad:
+                        names = set()
+                        for atoms, _, _ in res.by_instance.get(bi, []):
+                            names.update(a[0] for a in atoms if a[0].startswith("__"))
+                        aux.append([describe_instance(bi, universe), sorted(names)])
+                    v["bad_aux"] = aux
                     v.update(att)
                     cres["violations"].append(v)
                 # outcome signature: how the projected collections vary over instances
